@@ -50,9 +50,74 @@ type slotOp struct {
 	val  ssa.Value
 }
 
+// slotWrapper: g is a straight-line accessor around exactly one atomic slot operation `name` on (its buffer parameter,
+// its offset parameter[, its value parameter]) - func (b *buffer) store(off uint64, p unsafe.Pointer) { atomic.StorePointer(
+// &b.data[off], p) } - and returns the operation's result unchanged; the parameter positions are returned.
+func slotWrapper(cx *Ctx, g *ssa.Function, name string) (bi, ii, vi int, ok bool) {
+	g = origin(g)
+	if g == nil || g.Pkg == nil || !strings.HasSuffix(g.Pkg.Pkg.Path(), queuePkg) || len(g.Blocks) != 1 {
+		return 0, 0, 0, false
+	}
+	pidx := func(v ssa.Value) int {
+		for i, p := range g.Params {
+			if ssa.Value(p) == v {
+				return i
+			}
+		}
+		return -1
+	}
+	n, calls := 0, 0
+	bi, ii, vi = -1, -1, -1
+	var opv ssa.Value
+	var ret *ssa.Return
+	for _, in := range g.Blocks[0].Instrs {
+		if r, isR := in.(*ssa.Return); isR {
+			ret = r
+		}
+		if cc := callCommon(in); cc != nil {
+			calls++
+		}
+		if !isAtomicPtr(in, name) {
+			continue
+		}
+		a := callCommon(in).Args
+		base, idx, okA := slotAddr(cx, a[0])
+		if !okA {
+			return 0, 0, 0, false
+		}
+		n++
+		bi, ii = pidx(base), pidx(idx)
+		if len(a) > 1 {
+			vi = pidx(a[1])
+			if vi < 0 {
+				return 0, 0, 0, false
+			}
+		}
+		opv, _ = in.(ssa.Value)
+	}
+	if n != 1 || calls != 1 || bi < 0 || ii < 0 || ret == nil {
+		return 0, 0, 0, false
+	}
+	if len(ret.Results) == 1 && ret.Results[0] != opv {
+		return 0, 0, 0, false
+	}
+	return bi, ii, vi, true
+}
+
 func slotOps(cx *Ctx, fn *ssa.Function, name string) []slotOp {
 	var out []slotOp
 	allInstrs(fn, func(in ssa.Instruction) {
+		if g := calleeOf(in); g != nil && !isAtomicPtr(in, name) {
+			if bi, ii, vi, ok := slotWrapper(cx, g, name); ok {
+				a := callCommon(in).Args
+				op := slotOp{in: in, base: a[bi], idx: a[ii]}
+				if vi >= 0 {
+					op.val = a[vi]
+				}
+				out = append(out, op)
+			}
+			return
+		}
 		if !isAtomicPtr(in, name) {
 			return
 		}
@@ -869,7 +934,7 @@ func reachableBlocks(fn *ssa.Function, cut map[edge]bool) map[*ssa.BasicBlock]bo
 
 func ruleC16Atomic(cx *Ctx) {
 	const rule = "C16.atomic"
-	cx.R.Rule(rule, 3, "every access to a buffer element slot in package queue is an atomic.LoadPointer / atomic.StorePointer (newBuffer allocates only)")
+	cx.R.Rule(rule, 2, "every access to a buffer element slot in package queue is an atomic.LoadPointer / atomic.StorePointer (newBuffer allocates only)")
 	data := cx.needField(rule, queuePkg, "buffer", "data")
 	if data == nil {
 		return
